@@ -4,8 +4,8 @@ import json, os
 V = os.path.dirname(os.path.dirname(os.path.abspath(__file__)))
 HOOK_COMMITS = ["3789170", "404af39", "c77e773"]
 CHECKS = {
- "C01": dict(cat="translation_validation", tech="Coq-proved IR semantics as oracle: per-program validation of the optimiser's dumped IR against canonical BF.v; (proof at level 0 in progress)",
-   text="For every generated program x width x input x level 0..4(+100): the IR dumped from the current build is executed by the Coq model of the IR interpreter (IR.v, extracted) and must produce the canonical event sequence of BF.v; the Rust IrInterpreter must produce the same sequence; levels >3 must dump the level-3 IR. The optimiser itself is not modelled, so levels >=1 are validated per program, not proved for all programs.",
+ "C01": dict(cat="translation_validation", tech="level 0: Coq theorem C01_level0 (parser model + IR interpreter model = canonical semantics, all programs) tied by structural parser correspondence; levels >= 1: per-program validation of the optimiser's dumped IR through IR.v against canonical BF.v",
+   text="For every generated program x width x input x level 0..4(+100): the IR dumped from the current build is executed by the Coq model of the IR interpreter (IR.v, extracted) and must produce the canonical event sequence of BF.v; the Rust IrInterpreter must produce the same sequence; levels >3 must dump the level-3 IR. At level 0 (Program::optimize is the identity) theorem C01_level0 proves the statement for every program, input, width and I/O environment about Parse.v (exact model of Program::parse, compared structurally with the implementation on every generated program) and IR.v. The optimiser itself is not modelled, so levels >=1 are validated per program, not proved for all programs.",
    note="Trusted: Coq kernel, extraction, driver, harness, IR serialiser. opt.rs is not modelled (validated per program). Programs whose canonical run exceeds the fuel are skipped.", ref="§4 C01"),
  "C02": dict(cat="translation_validation", tech="per-program validation of dumped bytecode through BC.v semantics against canonical BF.v, debug and release dispatch",
    text="Bytecode dumped from CodeGen::translate(..,2,true) is executed by the Coq bytecode semantics (BC.v) and compared with the canonical semantics; BcInterpreter is run in debug (trampolined) and release (tail-called) builds on the same programs, levels 0..3, four widths.",
@@ -22,8 +22,8 @@ CHECKS = {
  "C06": dict(cat="exploration", tech="guard-page allocator runs of all backends on roaming programs; index discipline proved on Tape.v (C09_raw_in_bounds)",
    text="While an executor runs, every heap allocation is placed flush against PROT_NONE pages (left-flush and right-flush runs, debug and release); roaming programs (moves of thousands of cells, scans, revisits) must not fault and must produce the canonical events. The model-level statement (no raw index outside [0,size), refinement of the unbounded tape) is theorem C09_raw_in_bounds/C09_tape_refines for the Memory API; BCRaw.v (one-sided probes) is not built yet.",
    note="Observation of the implementation under an adversarial allocator; not a proof about Rust pointer arithmetic or machine code.", ref="§4 C06"),
- "C07": dict(cat="translation_validation", tech="limited-run engine models (Inplace.v/IR.v/BC.v with budget) vs execute_limited; property conditions checked against canonical classification",
-   text="For every program (halting or certified divergent) x backend x level x budget: (finished, events) must satisfy the property (prefix / complete when finished / finished at 2^62 / never finished when divergent) and equal the result of the budgeted Coq engine models for the three interpreters.",
+ "C07": dict(cat="translation_validation", tech="Coq theorems for the in-place (C04_inplace_prefix) and IR interpreter (C07_ir_*: prefix, finished=>complete, returns, large budget) models; limited-run engine models (Inplace.v/IR.v/BC.v with budget) vs execute_limited; property conditions checked against canonical classification",
+   text="For every program (halting or certified divergent) x backend x level x budget: (finished, events) must satisfy the property (prefix / complete when finished / finished at 2^62 / never finished when divergent) and equal the result of the budgeted Coq engine models for the three interpreters. Props/C07.v proves for the IR interpreter model, for every IR program, state, environment and budget: a finished limited run equals the unlimited run, an interrupted one has budget 0 and a prefix of its events, the limited run returns within depth size+budget, and every large enough budget reproduces a terminating unlimited run. Bytecode interpreter and JIT are decided per program only.",
    note="Time bound observed by wall clock only.", ref="§4 C07"),
  "C08": dict(cat="fault_enumeration", tech="fault positions enumerated over the canonical trace; expected behaviour = Coq canonical semantics under the faulty environment (IO.v)",
    text="For each halting program with I/O the failing input request / refused output byte index is enumerated over its canonical trace (plus absent input, absent sink); all four backends must return normally with exactly the canonical events up to and including the failing operation.",
@@ -43,9 +43,9 @@ CHECKS = {
  "C10": dict(cat="exploration", tech="execute_unsafe under guard pages on a region sized from the canonical pointer excursion (extracted machine) + program length",
    text="execute_unsafe (bytecode interpreter, JIT; levels 0-3; debug+release) on a context pre-grown to the canonical excursion plus a margin of the program's length, with the region and all other allocations flush against guard pages; must not fault and must produce the canonical events.",
    note="Observation, not proof; first exercise of the unchecked entry point.", ref="§4 C10"),
- "C11": dict(cat="translation_validation", tech="extracted Coq checker BCWf.bc_wf run on every bytecode the current build generates or holds",
+ "C11": dict(cat="translation_validation", tech="certified checker: extracted BCWf.bc_wf, proved sound w.r.t. path-based statements of the property (Props/C11.v), run on every bytecode the current build generates or holds",
    text="Every bytecode produced by translate(..,2,true)/(..,11,false) at levels 0-3 and the copy each executor holds is checked by the Coq-defined executable checker bc_wf (branch targets, operand window containing 0, temp indices, must-define dataflow to a fixpoint, liveness vs live bits of non-branch instructions, MemZero aliasing rules, fusion flag). A rejected program is the replay.",
-   note="The checker is defined in Coq and extracted; its soundness theorem (wf_safe) is not proved yet, so this is per-program validation by a Coq-defined checker, not a certified one. bc.rs is not modelled.", ref="§4 C11"),
+   note="Soundness of the checker is proved (branch targets, window, temp range, defined-before-use on every path, liveness of needed register temporaries); MemZero aliasing and fusion-flag rules are checker rules without a path-level theorem. bc.rs is not modelled: validation is per generated program.", ref="§4 C11"),
  "C12": dict(cat="proof", tech="Coq proofs on Parse.v (exact model of Program::parse): accepts iff balanced, error kind/char position = bracket-stack spec, comment-insensitivity; structural correspondence",
    text="Theorems for every width and every string of scalar values: parse accepts iff balanced; the reported (kind, character index) equals the bracket-stack specification (first unmatched ']' else innermost unclosed '['); filtering non-command characters changes neither acceptance, error kind nor the IR; bytes >= 0x80 are never commands. Parse.v is tied on every run: random Unicode strings, comment interleavings, depth-500 nesting, one-edit unbalancings must give exactly the model's IR / error; all executors' acceptance and comment-insensitivity are exercised, panics caught.",
    note="Parse.v hand-written; recursion depth of later stages is only exercised (depth <= 500).", ref="§4 C12"),
